@@ -298,11 +298,13 @@ class Model(SOCModel):
                 sp_xmat = sp_xmat[:, keep_idx]
                 pxmat = [list(sp_xmat[i].indices) for i in range(num_exp)]
 
+                plmi = []
                 for each in primal.lmi:
                     if each['linear'].shape[1] < pvar_num:
                         each['linear'].resize((each['linear'].shape[0], pvar_num))
-                    each['linear'] = each['linear'][:, keep_idx]
-                plmi = primal.lmi
+                    plmi.append({'linear': each['linear'][:, keep_idx],
+                                 'const': each['const'],
+                                 'dim': each['dim']})
 
             linear = dual_socp.linear
             const = dual_socp.const
@@ -342,7 +344,7 @@ class Model(SOCModel):
                 total_col = linear.shape[1] + sum([each['dim']**2 for each in plmi])
                 for each in plmi:
                     each_linear = each['linear']
-                    if each_linear.shape[1] != linear.shape[0]:
+                    if each_linear.shape[1] < linear.shape[0]:
                         each_linear.resize([each_linear.shape[0], linear.shape[0]])
                     linear_list.append(each_linear)
 
